@@ -3,6 +3,30 @@ import vlib
 from vlib import Check, MachineryError
 
 
+def _period_cues(e, h):
+    """Classifier for known_findings.d/C12.json (C12-cue-duration-over-1000): True iff the observed cue list of a `sub`
+    event is exactly 'one cue per F = ceil(c/1000) s': for every multiple p of F (UTC seconds) whose interval
+    [1000p, 1000p + c) meets the segment, one cue showing p, clipped to the segment - well-formed, right seconds, but
+    not one cue per UTC second.  Anything else (wrong second, end <= begin, outside the segment) is not in this class."""
+    try:
+        c, ph, dur, base = h["c"], e["ph"], e["dur"], int(e["base"])
+        if e.get("ev") != "sub" or c <= 1000 or ph < 0 or dur < 1:
+            return False
+        F = -(-c // 1000)
+        want = []
+        p = (base // F) * F
+        while (p - base) * 1000 - ph < dur:
+            b = max((p - base) * 1000 - ph, 0)
+            en = min((p - base) * 1000 - ph + c, dur)
+            if en > b:
+                want.append((b, en, p - base))
+            p += F
+        got = [(x["b"], x["e"], x["so"]) for x in e["cues"]]
+        return got == want and all(x["ok"] and x["nts"] == 1 for x in e["cues"])
+    except (KeyError, ValueError, TypeError):
+        return False
+
+
 def run(tier, replay=None):
     c = Check("C12", tier)
     c.rule = ("one event per served object: subtitle media segment (sub), subtitle init segment (init), MPD (mpd), the same "
@@ -26,13 +50,13 @@ def run(tier, replay=None):
     # (M) oracle theorems + implementation-shaped calcCueItvls judged by the oracle
     jobs = [("TimeSubs_MC", f"TimeSubs_{tier}.cfg", dict(workers=4, timeout=1500, required_actions=("NextSeg",))),
             ("TimeSubs_MC", "TimeSubs_impl_long.cfg", dict(workers=1, expect="violation", expect_violated=("ImplConforms",), coverage=False)),
-            ("TimeSubs_MC", "TimeSubs_impl_long_wf.cfg", dict(workers=1, expect="violation", expect_violated=("ImplWellFormed",), coverage=False)),
-            ("TimeSubs_MC", "TimeSubs_impl_phase.cfg", dict(workers=1, expect="violation", expect_violated=("ImplWellFormed",), coverage=False))]
+            ("TimeSubs_MC", "TimeSubs_impl_long_wf.cfg", dict(workers=1, expect="violation", expect_violated=("ImplOrigWellFormed",), coverage=False)),
+            ("TimeSubs_MC", "TimeSubs_impl_phase.cfg", dict(workers=1, expect="violation", expect_violated=("ImplOrigWellFormed",), coverage=False))]
     res = c.models(jobs)
     c.exhaustive = False
-    c.extra["design_counterexamples_calcCueItvls"] = {"cue_longer_than_a_second_cue_set": res[1].violated,
-                                                      "cue_longer_than_a_second_well_formed": res[2].violated,
-                                                      "segment_starts_c_or_more_into_a_second": res[3].violated}
+    c.extra["design_counterexamples_calcCueItvls"] = {"open_cue_longer_than_a_second_cue_set": res[1].violated,
+                                                      "fixed_5285868_cue_longer_than_a_second_well_formed": res[2].violated,
+                                                      "fixed_5285868_segment_starts_c_or_more_into_a_second": res[3].violated}
     # (V) real server
     drive = vlib.build_harness(cmd="c12")
     trace = c.work / "c12.ndjson"
@@ -63,6 +87,7 @@ def run(tier, replay=None):
         f["start_off_ms"] = isinstance(i, int) and 0 <= i < len(dur) and ((h.get("vod0", 0) + sum(dur[:i])) * 1000) % ts != 0
         ph = f.get("ph")
         f["ph_ge_c"] = isinstance(ph, int) and ph >= 0 and isinstance(h.get("c"), int) and ph >= h["c"]
+        f["period_cues"] = _period_cues(events[f["line"] - 1], h)
         for big in ("cues", "samples"):
             f.pop(big, None)
         c.add_failure(f)
